@@ -14,6 +14,8 @@ TRUSTED = ['Lean 4.33 kernel (core only)', 'axioms ⊆ {propext, Quot.sound}',
 def gen_case(g):
     ngti = int(g.integers(1, 5))
     s0 = int(g.integers(0, 2 ** 28)) * 2 ** 20
+    if g.uniform() < 0.15:              # an observation before the mission reference date: negative MET
+        s0 = -int(g.integers(2 ** 16, 2 ** 26)) * 2 ** 20
     dead = int(g.choice([0, 0, 1, 1132, 2 ** 12, 2 ** 16, 2 ** 19]))
     t = s0
     gtis = []
@@ -258,5 +260,6 @@ def replay(body):
             out('implementation %s the recorded model output' % ('matches' if same else 'DIFFERS from'))
             return 0 if (same and not bad) else 1
         return 1 if bad else 0
-    out(body['what'])
-    return 1
+    import sys
+    import common
+    return common.replay_rerun(sys.modules[__name__], body)
